@@ -72,6 +72,19 @@ Definition tzo_ok (off : Z) (txt : bytes) (back : option Z) : bool :=
   | Some _, None => false
   end.
 
+(* ---- decoding into a destination that already holds [old] ---- *)
+
+Definition ckey_into_ok (o : oracles) (old : ckey) (t : tree) (obs : res ckey) : bool :=
+  res_eqb ckey_eqb (ckey_un_into old o t) obs.
+Definition hashout_into_ok (o : oracles) (old : hashout) (t : tree) (obs : res hashout) : bool :=
+  res_eqb hashout_eqb (hashout_un_into old o t) obs.
+Definition delay_into_ok (o : oracles) (old : delay) (t : tree) (obs : res delay) : bool :=
+  res_eqb delay_eqb (delay_un_into o old t) obs.
+Definition saslerr_into_ok (o : oracles) (old : saslerr) (t : tree) (obs : res saslerr) : bool :=
+  res_eqb saslerr_eqb (saslerr_un_into old t) obs.
+Definition form_into_ok (o : oracles) (old : data) (t : tree) (obs : res data) : bool :=
+  res_eqb data_eqb (unmarshal_into old t) obs.
+
 (* ---- data forms ---- *)
 
 Inductive fctor := CNew (opts : list formopt) | CCancel (t i : bytes) | CZero.
